@@ -46,7 +46,7 @@ package block
 //@   ensures [never-back] pb.lastHeight >= old(pb.lastHeight)
 
 //@ func submitToDA[T](m, ctx, items, marshalFn, postSubmit, itemType) (err)
-//@   property C06
+//@   property C06 C07
 //@   modifies m.headerCache.daInc, m.headerCache.daIncHas, m.dataCache.daInc, m.dataCache.daIncHas,
 //@            m.pendingHeaders.base.lastHeight, m.pendingData.base.lastHeight, durable m.store.meta, durable m.store.metaHas
 //@   requires [same-store] m.pendingHeaders.base.store == m.store && m.pendingData.base.store == m.store
@@ -270,7 +270,12 @@ package block
 
 //@ func convertBatchDataToBytes(batchData) (r)
 //@   property C12
-//@   ensures [any] true
+//@   nopanic
+//@   ensures [non-nil] r != nil
+//@   ensures [empty] len(batchData) == 0 ==> len(r) == 0
+//@   ensures [length] len(r) == sumLen(batchData, len(batchData)) + 4 * len(batchData)
+//@   loop 1 invariant [size] rangeindex >= -1 && rangeindex < len(batchData) && totalSize == sumLen(batchData, rangeindex + 1) + 4 * (rangeindex + 1)
+//@   loop 2 invariant [length] rangeindex >= -1 && rangeindex < len(batchData) && len(result) == sumLen(batchData, rangeindex + 1) + 4 * (rangeindex + 1)
 
 //@ func (m *Manager) retrieveBatch(ctx) (bd, err)
 //@   property C01 C11
@@ -446,20 +451,24 @@ package block
 //@   observe pb := call publishBlock
 //@   observe g1 := call getRemainingSleep@1
 //@   observe g2 := call getRemainingSleep@2
-//@   modifies lazyTimer.resetTo, blockTimer.resetTo
+//@   modifies lazyTimer.resetTo, blockTimer.resetTo, lazyTimer.armed, blockTimer.armed
 //@   ensures [published-once] pb.count == 1
 //@   ensures [start-before-publish] tn.count == 1 && tn.seq < pb.seq
 //@   ensures [error] err != nil ==> pb.res0 != nil && g1.count == 0 && g2.count == 0
 //@   ensures [timers-reset] err == nil ==> g1.count == 1 && g2.count == 1 && g1.arg0 == tn.res0 && g2.arg0 == tn.res0
 //@                       && g1.arg1 == m.config.Node.LazyBlockInterval.Duration && g2.arg1 == m.config.Node.BlockTime.Duration
 //@                       && lazyTimer.resetTo == g1.res0 && blockTimer.resetTo == g2.res0
+//@   ensures [timers-armed] err == nil ==> armed(lazyTimer) && armed(blockTimer)
 
 //@ func (m *Manager) lazyAggregationLoop(ctx, blockTimer) (err)
 //@   property C17
 //@   requires [timer] blockTimer != nil
 //@   observe pbk := call produceBlock
 //@   observe rst := call Reset
-//@   modifies m.txsAvailable, heap "model:Timer.resetTo"
+//@   requires [armed] armed(blockTimer)
+//@   modifies m.txsAvailable, heap "model:Timer.resetTo", heap "model:Timer.armed"
+// no lost wake-up: whatever case ran, both timers will fire again
+//@   loop 1 invariant [wakes-up-again] armed(blockTimer) && armed(lazyTimer)
 //@   loop 1 invariant [notify-sets-flag] recvCount("txNotifyCh") == 1 ==> m.txsAvailable && pbk.count == 0 && rst.count == 0
 //@   loop 1 invariant [lazy-timer-publishes] recvCount("lazyTimer.C") == 1 ==> pbk.count == 1 && m.txsAvailable == iter(m.txsAvailable)
 //@   loop 1 invariant [block-timer-flag] recvCount("blockTimer.C") == 1 && iter(m.txsAvailable) ==> pbk.count == 1 && !m.txsAvailable
@@ -474,7 +483,9 @@ package block
 //@   observe pb := call publishBlock
 //@   observe tn := call Now
 //@   observe g := call getRemainingSleep
-//@   modifies m.txsAvailable, heap "model:Timer.resetTo"
+//@   requires [armed] armed(blockTimer)
+//@   modifies m.txsAvailable, heap "model:Timer.resetTo", heap "model:Timer.armed"
+//@   loop 1 invariant [wakes-up-again] armed(blockTimer)
 //@   loop 1 invariant [ignore-notify] recvCount("txNotifyCh") == 1 ==> pb.count == 0
 //@   loop 1 invariant [block-timer-publishes] recvCount("blockTimer.C") == 1 ==> pb.count == 1 && tn.seq < pb.seq && g.count == 1 && g.arg0 == tn.res0
 //@                       && g.arg1 == m.config.Node.BlockTime.Duration && blockTimer.resetTo == g.res0
@@ -495,7 +506,7 @@ package block
 // returned state sits one below it; a store with state returns it (and refuses a genesis that
 // starts above it). Nothing else is written.
 //@ func getInitialState(ctx, genesis, signer, store, exec, logger, managerOpts) (s, err)
-//@   property C04 C06 C08
+//@   property C04 C05 C06 C08
 //@   requires [wiring] store != nil && exec != nil && logger != nil
 //@   requires [genesis] genesis.InitialHeight >= 1
 //@   modifies durable store.has[genesis.InitialHeight], durable store.hdrAt[genesis.InitialHeight], durable store.hsigAt[genesis.InitialHeight],
@@ -515,15 +526,19 @@ package block
 //@   trusted
 //@   modifies m.headerCache.itemAt, m.headerCache.seen, m.headerCache.daInc, m.headerCache.daIncHas, m.dataCache.itemAt, m.dataCache.seen, m.dataCache.daInc, m.dataCache.daIncHas
 //@   ensures [any] true
+// the decoder of the stored batch cursor is total: no stored byte string makes it panic
 //@ func bytesToBatchData(data) (r, err)
-//@   trusted
-//@   ensures [any] true
+//@   property C12
+//@   nopanic
+//@   ensures [empty] len(data) == 0 ==> err == nil && len(r) == 0
+//@   ensures [nil-on-error] err != nil ==> r == nil
+//@   loop 1 invariant [offset] 0 <= offset && offset <= len(data)
 
 // NewManager: the recorded height is raised to the state's height (never the other way round), and
 // on a chain that starts now - no state, no submission watermarks - nothing counts as waiting for DA
 // submission, whatever the initial height is.
 //@ func NewManager(ctx, signer, config, genesis, store, exec, sequencer, da, logger, headerStore, dataStore, headerBroadcaster, dataBroadcaster, seqMetrics, gasPrice, gasMultiplier, managerOpts) (m, err)
-//@   property C04:height-is-state,height-never-lowered C06:nothing-pending-on-fresh-chain,watermarks-only-raised C08:nothing-pending-on-fresh-chain
+//@   property C04:height-is-state,height-never-lowered C05:height-is-state,height-never-lowered C06:nothing-pending-on-fresh-chain,watermarks-only-raised C08:nothing-pending-on-fresh-chain
 //@   requires [wiring] store != nil && exec != nil && logger != nil
 //@   requires [genesis] genesis.InitialHeight >= 1
 //@   requires [height-range] store.height < 18446744073709551615
@@ -717,6 +732,8 @@ package block
 //@   observe sub := call submitHeadersToDA
 //@   modifies m.headerCache.daInc, m.headerCache.daIncHas, m.dataCache.daInc, m.dataCache.daIncHas,
 //@            m.pendingHeaders.base.lastHeight, m.pendingData.base.lastHeight, durable m.store.meta, durable m.store.metaHas
+// no lost wake-up: on every way round the loop the timer (or ticker) the loop waits on fires again
+//@   loop 1 invariant [wakes-up-again] armed(timer)
 //@   loop 1 invariant [submit-exactly-pending] sub ==> gph && gph.res1 == nil && sub.arg2 == gph.res0
 //@   loop 1 invariant [submit-all-pending] gph && gph.res1 == nil && len(gph.res0) > 0 ==> sub
 //@   loop 1 invariant [once] sub.count <= 1
@@ -728,6 +745,7 @@ package block
 //@   observe sub := call submitDataToDA
 //@   modifies m.headerCache.daInc, m.headerCache.daIncHas, m.dataCache.daInc, m.dataCache.daIncHas,
 //@            m.pendingHeaders.base.lastHeight, m.pendingData.base.lastHeight, durable m.store.meta, durable m.store.metaHas
+//@   loop 1 invariant [wakes-up-again] armed(timer)
 //@   loop 1 invariant [submit-exactly-created] sub ==> cs && cs.res1 == nil && sub.arg2 == cs.res0
 //@   loop 1 invariant [submit-all-created] cs && cs.res1 == nil && len(cs.res0) > 0 ==> sub
 //@   loop 1 invariant [once] sub.count <= 1
